@@ -35,6 +35,7 @@ def install(extra_globals=None, only=None):
     had = "float" in d
     _saved.append((d, "float", d.get("float") if had else _MISSING))
     d["float"] = sfloat
+  _install_numpy_contracts()
   for mn, names in (extra_globals or {}).items():
     d = sys.modules[mn].__dict__
     for k, v in names.items():
@@ -43,6 +44,27 @@ def install(extra_globals=None, only=None):
 
 
 _MISSING = object()
+
+
+def _install_numpy_contracts():
+  """numpy.isclose on a proxy is replaced by its documented contract |a - b| <= atol + rtol * |b| (the real routine would
+  see the proxy's tag).  Plain numbers go to the real numpy."""
+  np = sys.modules.get("numpy")
+  if np is None or getattr(np.isclose, "_symx", False):
+    return
+  real = np.isclose
+
+  def isclose(a, b, rtol=1e-05, atol=1e-08, equal_nan=False):
+    if isinstance(a, (core.SReal, core.SInt)) or isinstance(b, (core.SReal, core.SInt)):
+      d = a - b
+      bb = b if isinstance(b, (core.SReal, core.SInt)) else core.lift(b)
+      absd = core.SReal(core.z3.If(core.term(d) >= 0, core.term(d), -core.term(d)))
+      absb = core.SReal(core.z3.If(core.term(bb) >= 0, core.term(bb), -core.term(bb)))
+      return absd <= absb * rtol + atol
+    return real(a, b, rtol=rtol, atol=atol, equal_nan=equal_nan)
+  isclose._symx = True
+  _saved.append((np.__dict__, "isclose", real))
+  np.isclose = isclose
 
 
 def uninstall():
